@@ -29,6 +29,12 @@ CHECKS = {
  "C20": dict(level="exploration", technique="property-based testing (rapid): namesake-injecting typed mutators (generated same-API user packages, generic builtin shadows, local shadows) + go/types resolution oracle over a subject table",
    text="Programs in which builtins and std packages are re-declared with compatible signatures at package, import and local scope; every diagnostic of an API-specific checker is judged by resolving the flagged reference with go/types.",
    note="Subject table: hand-written checkers by hand, rule groups derived from the packages/builtins spelled in rules.go patterns; only reports are judged (a missed diagnostic is never a violation); types aliased to the real ones count as real.", ref="4/C20"),
+ "C17": dict(level="exploration", technique="exhaustive enumeration with recomputation oracle (re-compile rule source in memory, structural comparison; registry/documentation bijections; source-vs-IR behavioural differential) + rapid-generated comparator self-test",
+   text="All rule groups, rules, registered checkers and documentation rows are enumerated completely; the shipped IR is compared with a fresh in-memory compilation of the rule source, embedded checkers with their groups, overview rows and `doc` output with the live registry and the default-selection rule, and the two engines (from source / from shipped IR) behaviourally over the example corpus.",
+   note="The finite space is enumerated completely (exhaustive: true); irconv from the module cache is the compiler of record; the comparator is kept honest by random in-memory edits it must detect.", ref="4/C17"),
+ "C18": dict(level="exploration", technique="model-based property testing (rapid): generated rule-file fault sequences x failOn x enable/disable lists against a reference model of the load policy and group algebra",
+   text="Sequences of valid and faulty rule files (unreadable, syntax, DSL, import, empty), as lists or globs, under all failOn values, the legacy flag and enable/disable lists; the dynamic-rules checker is constructed and run in-process and compared with a reference model written from the statement (cells the statement leaves open accept both outcomes).",
+   note="Runs in-process through linter.NewChecker with parameters set and restored per case; rule files and unreadable entries are materialised on disk.", ref="4/C18"),
 }
 
 NOT_YET = {}
